@@ -51,6 +51,26 @@ def _write_trees(d, n, name="in.nw"):
             f.write("(a,b,t%d);\n" % i)
     return p
 
+def _write_nexus(path, newicks, style="distinct", translate=False):
+    """a Nexus file with one TREE statement per Newick string; tree names: distinct / all equal / equal in pairs;
+    with translate, the tip names are replaced by numbers declared in a TRANSLATE command"""
+    names = []
+    for nw in newicks:
+        for x in _names(nw):
+            if x not in names:
+                names.append(x)
+    out = ["#NEXUS", "BEGIN TREES;"]     # no TAXA block: gotree requires every TAXLABELS name in every tree
+    if translate:
+        out.append("  TRANSLATE " + ", ".join("%d %s" % (i + 1, x) for i, x in enumerate(names)) + ";")
+    for i, nw in enumerate(newicks):
+        if translate:
+            nw = re.sub(r"([(,]\s*)([A-Za-z][A-Za-z0-9_]*)", lambda m: m.group(1) + str(names.index(m.group(2)) + 1), nw)
+        tn = {"distinct": "tree%d" % i, "equal": "rep", "pairs": "rep%d" % (i // 2)}[style]
+        out.append("  TREE %s = %s" % (tn, nw.strip()))
+    out.append("END;")
+    open(path, "w").write("\n".join(out) + "\n")
+    return path
+
 def _selected(out):
     return [int(x) for x in re.findall(r"\bt(\d+)\b", out)]
 
@@ -135,6 +155,33 @@ def gen(rng, tier):
                         argv = ["sample", "-i", f, "-n", str(k), "--seed", str(s)] + (["--replace"] if repl else [])
                         jobs.append((argv, d))
                         metas.append(("sample", n, k, repl, s))
+        # Nexus input: tree names distinct / all equal / equal in pairs, with and without TRANSLATE
+        nx = 0
+        for n in (3, 5):
+            for style in ("distinct", "equal", "pairs"):
+                for tr in (False, True):
+                    f = _write_nexus(os.path.join(d, "nx%d.nex" % nx), ["(a,b,t%d);" % i for i in range(n)], style, tr)
+                    nx += 1
+                    for k in (1, 2):
+                        for repl in (False, True):
+                            s = rng.randrange(1, 2**31)
+                            jobs.append((["sample", "-i", f, "--format", "nexus", "-n", str(k), "--seed", str(s)] + (["--replace"] if repl else []), d))
+                            metas.append(("sample", n, k, repl, s))
+        for style in ("distinct", "equal", "pairs"):
+            for tr in (False, True):
+                tipss, nws = [], []
+                for j in range(3):
+                    names = rng.sample(["u%d" % x for x in range(12)], rng.randint(5, 8))
+                    t = g.decorate(g.shape(names, maxdeg=4, rootdeg=3), lenmode="none", supmode="none")
+                    tipss.append(leaves(t))
+                    nws.append(newick(t))
+                f = _write_nexus(os.path.join(d, "nxp%d.nex" % nx), nws, style, tr)
+                nx += 1
+                rev = rng.random() < 0.5
+                k = 4 if rev else rng.randint(1, 2)
+                s = rng.randrange(1, 2**31)
+                jobs.append((["prune", "-i", f, "--format", "nexus", "--random", str(k), "--seed", str(s)] + (["-r"] if rev else []), d))
+                metas.append(("prunemulti", tipss, k, rev, s))
         # an empty input file
         fe = os.path.join(d, "empty.nw")
         open(fe, "w").close()
@@ -367,6 +414,14 @@ def extra(tier, seed, st):
                     return ("removed", tuple(r1), tuple(r2))
                 return (r1[0], r2[0])
             configs.append(("prune-random two trees (%s tip sets) k=1" % tag, ["prune", "-i", f, "--random", "1"], outs, key2))
+        for style, tr in (("equal", False), ("pairs", True), ("distinct", True)):
+            f = _write_nexus(os.path.join(d, "fx-%s-%s.nex" % (style, tr)), ["(a,b,t%d);" % i for i in range(4)], style, tr)
+            configs.append(("sample-noreplace nexus (%s tree names%s) n=4 k=1" % (style, ", translate" if tr else ""),
+                            ["sample", "-i", f, "--format", "nexus", "-n", "1"], set(frozenset([i]) for i in range(4)),
+                            lambda so: frozenset(_selected(so))))
+        f = _write_nexus(os.path.join(d, "fxs.nex"), ["((a,b),c,d);"], "equal", True)
+        configs.append(("shuffletips nexus (translate) n=4", ["shuffletips", "-i", f, "--format", "nexus"],
+                        set(permutations(["a", "b", "c", "d"])), lambda so: tuple(_names(so))))
         def all_topos(n, rooted):
             # insertion enumeration in Python (independent of the Go enumerator and of the Coq model)
             names = ["Tip%d" % i for i in range(n)]
